@@ -52,13 +52,17 @@
 (*                   be read (ReadFaults) the entry is added without       *)
 (*                   platform and the command succeeds (finding X03-2);    *)
 (*                   TRUE = the command fails                              *)
+(*   EqualAnnStrict  FALSE = as found: descriptor.Equal compares the       *)
+(*                   annotations key by key without checking that the key  *)
+(*                   exists on the other side (finding X03-3); TRUE = maps *)
+(*                   must be equal                                         *)
 (*   PutFirst        TRUE: the index is pushed before the copies           *)
 (*   DedupByDigest   TRUE: duplicates are recognised by digest alone       *)
 (*   DeleteKeepsOne  TRUE: delete stops after the first match              *)
 (***************************************************************************)
 EXTENDS IndexEditWorld
 
-CONSTANTS DescPlatStrict, PlatLookupStrict, PutFirst, DedupByDigest, DeleteKeepsOne, Faults, ReadFaults
+CONSTANTS DescPlatStrict, PlatLookupStrict, EqualAnnStrict, PutFirst, DedupByDigest, DeleteKeepsOne, Faults, ReadFaults
 
 VARIABLES tkind,    \* "reg" | "dir": registry or OCI layout target
           same,     \* the target repository is source repository S1
@@ -86,9 +90,18 @@ Cut(s, i) == SubSeq(s, 1, i - 1) \o SubSeq(s, i + 1, Len(s))
 \* descriptor.Descriptor.Equal (types/descriptor/descriptor.go): digest, size, media type,
 \* artifactType, platform (both nil or platform.Match), urls, annotations; `data` is not compared
 XEq(a, b) == a = b \/ {a, b} = {"data", ""}
+\* annotations: both nil, or the same number of keys and for every key of the first the same value in the
+\* second - as found a key the second lacks reads as "" there (finding X03-3: {b: ""} equals {a: "1"})
+AnnLookup(B, k) == IF \E q \in B : q[1] = k THEN (CHOOSE q \in B : q[1] = k)[2] ELSE ""
+AnnEq(x, y) ==
+  IF EqualAnnStrict \/ x \notin DOMAIN AnnPairs \/ y \notin DOMAIN AnnPairs THEN x = y
+  ELSE LET A == AnnPairs[x]
+           B == AnnPairs[y]
+       IN IF A = {} \/ B = {} THEN A = B
+          ELSE Cardinality(A) = Cardinality(B) /\ \A q \in A : AnnLookup(B, q[1]) = q[2]
 Equal(a, b) ==
   IF DedupByDigest THEN a.id = b.id ELSE
-  /\ a.id = b.id /\ a.sz = b.sz /\ a.mt = b.mt /\ XEq(a.x, b.x) /\ a.ann = b.ann
+  /\ a.id = b.id /\ a.sz = b.sz /\ a.mt = b.mt /\ XEq(a.x, b.x) /\ AnnEq(a.ann, b.ann)
   /\ IF a.plat = "" \/ b.plat = "" THEN a.plat = b.plat
      ELSE SamePlat(StoredPlat[a.plat], StoredPlat[b.plat])
 
@@ -263,9 +276,9 @@ Put ==
   /\ tag' = (IF cmd.op = "create" /\ cmd.bydig THEN tag ELSE [k |-> "idx", v |-> newv])
   /\ IF PutFirst /\ cmd.op # "delete" THEN pc' = "refs" /\ out' = out
      ELSE pc' = "close" /\ out' = "ok"
-  \* an index pushed by digest is listed in a layout's index.json, one with a subject is recorded in the
-  \* referrers fallback tag of the subject: what it names stays reachable
-  /\ roots' = (IF cmd.op = "create" /\ (cmd.bydig \/ (cmd.mt = "oci" /\ cmd.subj # "")) THEN roots \cup ({newv.ents[i].id : i \in DOMAIN newv.ents} \cap Ids) ELSE roots)
+  \* an index pushed by digest is listed in a layout's index.json, every version of an index with a subject
+  \* is recorded in the referrers fallback tag of the subject: what it names stays reachable
+  /\ roots' = (IF (cmd.op = "create" /\ cmd.bydig) \/ newv.subj # "" THEN roots \cup ({newv.ents[i].id : i \in DOMAIN newv.ents} \cap Ids) ELSE roots)
   /\ UNCHANGED <<env, rf, tman, xt, cmd, cur, ri, tops, plan, ptags, acc, newv>>
 
 \* deferred rc.Close: an OCI layout collects what no tag, untagged index.json entry or recorded
